@@ -19,6 +19,14 @@ CODEC_PAIRS = [
 ]
 
 
+_SPLIMIT = "cannot exceed the prefix: the value is bounded by the slatepack size limits - a probe with 65537 recipients (4.2 MB) is refused by the reader with 'too large read' before any count could wrap (triage/build-phase/c08)"
+R7_ALLOW = {
+    ("<" + SPT + "SlatepackBin as grin_core::ser::Writeable>::write", "opt_fields_len as u32"): "length of the optional header fields (one slatepack address, < 100 bytes)",
+    ("<" + SPT + "SlatepackEncMetadataBin as grin_core::ser::Writeable>::write", "encoded_len as u32"): _SPLIMIT,
+    ("<" + SPT + "SlatepackEncMetadataBin as grin_core::ser::Writeable>::write", "len as u16"): _SPLIMIT,
+}
+
+
 def impl_fn(db, trait, name, method):
     for fid, f in db.fns.items():
         if f.impl_trait == trait and f.dk == "AssocFn" and fid.endswith("::" + method) and codec.norm_type(f.self_ty or "") == name and "{closure" not in fid:
@@ -72,7 +80,7 @@ def guards_dominating(fn, b):
                 for o in (x.l, x.r):
                     out |= {(y[1], y[2]) for y in vf.origins(fn, o) if y[0] == "field"}
     for cb, t in fn.calls():
-        if t.get("f") in ("core::option::Option::<T>::is_some", "core::option::Option::<T>::is_none", "alloc::vec::Vec::<T, A>::is_empty", "core::slice::<impl [T]>::is_empty"):
+        if t.get("dty") == "bool" and t.get("f") not in cfg.CMP_CALLS and t["a"]:
             g = cfg.call_guard(fn, cb)
             for edges in (g.ok, g.fail):
                 if edges and cfg.must_pass(fn, edges, {b})[0]:
@@ -563,15 +571,32 @@ def run(ctx):
                         continue
                     # a dominating comparison of the same length against a bound
                     guarded = False
+
+                    def len_id(y):
+                        tt = f.bbs[y[2]]["t"]
+                        return (y[1], vf.strip_clones(f, tt["a"][0]) if tt["a"] else None, tuple(e.get("n") for e in (vf.producers(f, tt["a"][0]) and []) ))
+
+                    def len_key(y):
+                        tt = f.bbs[y[2]]["t"]
+                        flds = tuple(sorted(z[2] for z in vf.producers(f, tt["a"][0]) if z[0] == "field")) if tt["a"] else ()
+                        return (y[1], flds)
+
+                    want = {len_key(y) for y in lens}
                     for x in cfg.comparisons(f):
                         if x.op in ("Gt", "Ge", "Lt", "Le") and not x.is_call:
-                            if vf.producers(f, x.l) & set(lens) or vf.producers(f, x.r) & set(lens):
-                                lp = vf.op_place(x.l)
-                                # the comparison must be on the untruncated value (usize), not on the cast result
-                                lty = f.locals[lp[0]]["ty"] if lp else ""
-                                if lty == "usize" and (cfg.must_pass(f, x.false_edges, {b})[0] or cfg.must_pass(f, x.true_edges, {b})[0]):
-                                    guarded = True
+                            for side in (x.l, x.r):
+                                cl = [y for y in vf.producers(f, side) if y[0] == "call" and (y[1].endswith("::len") or y[1].endswith("encoded_len") or y[1].endswith("opt_fields_len"))]
+                                if cl and {len_key(y) for y in cl} & want:
+                                    lp = vf.op_place(side)
+                                    # the comparison must be on the untruncated value (usize), not on the cast result
+                                    lty = f.locals[lp[0]]["ty"] if lp else ""
+                                    if lty == "usize" and (cfg.must_pass(f, x.false_edges, {b})[0] or cfg.must_pass(f, x.true_edges, {b})[0]):
+                                        guarded = True
                     what = "%s as %s" % (pp.short(lens[0][1]).split("::")[-1], s["r"]["ty"])
+                    reason = R7_ALLOW.get((fid, what))
+                    if not guarded and reason:
+                        run.note("C08.R7 allow-list: %s `%s`: %s" % (pp.short(fid), what, reason))
+                        guarded = True
                     run.instance(R7, {"fn": pp.short(fid), "cast": what, "site": s["sp"].split(":")[1], "bounded": guarded}, held=guarded)
                     if not guarded:
                         run.finding(Finding(R7, fid, "length prefix truncated: %s without a bound check" % what, site=":".join(s["sp"].split(":")[:2])))
